@@ -2,7 +2,11 @@
 
 package circuit
 
-import "time"
+import (
+	"time"
+
+	"github.com/benbjohnson/clock"
+)
 
 // VerifSnapshot is a read-only view of the breaker's private state for oracles and state keys.
 type VerifSnapshot struct {
@@ -15,4 +19,13 @@ type VerifSnapshot struct {
 // VerifSnapshot must be called while no thread is inside the breaker (the scheduler guarantees it).
 func (b *Breaker) VerifSnapshot() VerifSnapshot {
 	return VerifSnapshot{State: b.state, Generation: b.generation, Counts: b.counts, BackoffExpires: b.backoffExpires}
+}
+
+// VerifFreezeClock replaces the breaker's wall clock with one that stands still at t, so that the
+// end of a back-off period cannot depend on how fast the machine runs (virtual time under the
+// scheduler does not advance either).
+func (b *Breaker) VerifFreezeClock(t time.Time) {
+	m := clock.NewMock()
+	m.Set(t)
+	b.clock = m
 }
